@@ -6,8 +6,9 @@ Theorems about `YgmVerif.DSet` (Model/DSet.lean: the message system of
 `async_union` / `async_union_and_execute`, handler bodies transcribed from
 detail/disjoint_set_impl.hpp).  `Reach s` = `s` is reachable from the empty container by
 any number of `issue` (a rank calls async_union[_and_execute]), `deliver i` (ANY in-flight
-message is delivered next) and `compress x` (all_find / all_compress write-back) steps, in
-any order: all union multigraphs, all delivery orders, all epochs.
+message is delivered next), `compress x` (all_find / all_compress write-back) and `clear`
+(only at quiescence: `clear()` starts with a barrier) steps, in any order: all union
+multigraphs, all delivery orders, all epochs.  `issued`, `cbs`, `mergeLog` restart at a clear.
 
 Everything is derived from one inductive invariant (`InvP`, Lemmas/DSet.lean) whose
 per-message clauses are `MsgOk`:
@@ -102,16 +103,40 @@ theorem no_split {s : State} (h : Reach s) {x z : Item} (hx : ¬ isRoot s x)
     sameTree (reparent s x z) u v :=
   sameTree.reparent_nonroot h.inv.a.lex hx hlt hst huv
 
-/-- from barrier to barrier sets only grow: items in one set after a barrier are in one set
-after every later barrier (whatever was issued, delivered or compressed in between) -/
-theorem sets_only_grow {s s' : State} (h : Reach s) (st : Steps s s') (hq : s.msgs = []) (hq' : s'.msgs = [])
-    {x y : Item} (hxy : root s x = root s y) : root s' x = root s' y := by
-  have h' : Reach s' := by
-    clear hq hq' hxy
-    induction st with
-    | refl => exact h
-    | tail _ st ih => exact Steps.tail ih st
+/-- from barrier to barrier sets only grow, as long as the container is not cleared: items in
+one set after a barrier are in one set after every later barrier (whatever was issued,
+delivered or compressed in between) -/
+theorem sets_only_grow {s s' : State} {l : List (Item × Item)} (h : Reach s) (st : USteps s l s')
+    (hq : s.msgs = []) (hq' : s'.msgs = []) {x y : Item} (hxy : root s x = root s y) : root s' x = root s' y := by
+  have h' : Reach s' := Steps.trans h st.toSteps
   exact (connectivity h' hq' x y).2 (Conn.mono (issued_mono st) ((connectivity h hq x y).1 hxy))
+
+/-! ## clear -/
+
+/-- `clear()` (taken at quiescence: it starts with a barrier) leaves a reachable state that is
+empty in every respect: no item present, `size() = 0`, `num_sets() = 0`, nothing in flight,
+every item reads as an unvisited singleton, and the ghost logs are restarted -/
+theorem clear_resets {s : State} (h : Reach s) (hq : s.msgs = []) :
+    Reach (clear s) ∧ (clear s).dom = [] ∧ size (clear s) = 0 ∧ numSets (clear s) = 0 ∧ (clear s).msgs = [] ∧
+    (∀ x, rank (clear s) x = 0 ∧ parent (clear s) x = x) ∧
+    (clear s).issued = [] ∧ (clear s).cbs = [] ∧ (clear s).mergeLog = [] ∧ (clear s).plainIssued = 0 :=
+  ⟨Steps.tail h (Step.clear s hq), rfl, rfl, rfl, rfl, fun _ => ⟨rfl, rfl⟩, rfl, rfl, rfl, rfl⟩
+
+/-- the ghost field `issued` of a state reached without a `clear` from a cleared (or the initial)
+container is exactly the list of unions issued since then -/
+theorem issued_since_clear {s s' : State} {l : List (Item × Item)} (st : USteps (clear s) l s') : s'.issued = l := by
+  rw [issued_usteps st]; exact List.append_nil l
+
+/-- connectivity after a `clear`: at any later barrier (before the next clear) two items have the
+same representative iff they are connected by the unions `l` issued AFTER the clear — nothing of
+the earlier epochs survives, whatever they were -/
+theorem connectivity_after_clear {s s' : State} {l : List (Item × Item)} (h : Reach s) (hq : s.msgs = [])
+    (st : USteps (clear s) l s') (hq' : s'.msgs = []) (x y : Item) :
+    root s' x = root s' y ↔ Conn l x y := by
+  have h' : Reach s' := Steps.trans (clear_resets h hq).1 st.toSteps
+  have := connectivity h' hq' x y
+  rw [issued_since_clear st] at this
+  exact this
 
 /-! ## counting -/
 
@@ -146,6 +171,12 @@ theorem callbacks_spanning {s : State} (h : Reach s) (hp : s.plainIssued = 0) (h
     Conn s.cbs x y ↔ Conn s.issued x y :=
   ⟨fun c => Conn.mono (fun e he => h.inv.cbs_issued e he) c,
    fun c => conn_of_sameTree (h.inv.span hp) (complete h hq c)⟩
+
+/-- … and so do the counts: with only `async_union_and_execute` after the clear, the callbacks run
+since the clear number (#items − #sets) of the items touched since the clear -/
+theorem callbacks_after_clear {s s' : State} {l : List (Item × Item)} (h : Reach s) (hq : s.msgs = [])
+    (st : USteps (clear s) l s') (hp : s'.plainIssued = 0) : s'.cbs.length + numSets s' = size s' :=
+  callbacks_count (Steps.trans (clear_resets h hq).1 st.toSteps) hp
 
 /-! ## num_sets, representatives -/
 
@@ -213,6 +244,15 @@ example : ex2.msgs = [] ∧ ex2.cbs.length = 1 ∧ numSets ex2 = 1 ∧ size ex2 
 
 /-- a state with messages in flight satisfies the hypotheses of `messages_ok` non-trivially -/
 example : (deliver (issue init false 1 2) 0).msgs = [Msg.walk false 2 2 1 1 0 1 2] := by decide
+
+/-- clear after `ex1`, then `async_union(1,3)` to quiescence: 2 is gone, {1,3} is the only set -/
+def ex3 : State := deliver (deliver (deliver (deliver (issue (clear ex1) false 1 3) 0) 0) 0) 0
+
+theorem ex3_steps : USteps (clear ex1) [(1, 3)] ex3 :=
+  .tail (.tail (.tail (.tail (.tail (.refl _) (.issue _ false 1 3)) (.deliver _ 0)) (.deliver _ 0)) (.deliver _ 0)) (.deliver _ 0)
+
+example : ex1.msgs = [] ∧ ex3.msgs = [] ∧ size (clear ex1) = 0 ∧ size ex3 = 2 ∧ numSets ex3 = 1 ∧
+    root ex3 1 = root ex3 3 ∧ root ex3 1 ≠ root ex3 2 ∧ ex3.issued = [(1, 3)] := by decide
 
 /-- `Forest` is not vacuous: it rejects a cycle -/
 example : ¬ Forest [(1, 2), (2, 1)] := by
